@@ -63,6 +63,21 @@ def run(res, args):
         okx, doctype, xev = xmlcmp.expat_events(er)
         stats['well_formed_checked'] += 1
         if not okx:
+            # a CDATA section opened while another one is still open (through a child element)
+            depth, nested, pos = 0, False, 0
+            while True:
+                a1, b1 = xml.find(b'<![CDATA[', pos), xml.find(b']]>', pos)
+                if a1 < 0 and b1 < 0:
+                    break
+                if a1 >= 0 and (b1 < 0 or a1 < b1):
+                    nested = nested or depth > 0; depth += 1; pos = a1 + 9
+                else:
+                    depth = max(0, depth - 1); pos = b1 + 3
+            kf = next((k for k in common.load_known()['findings'] if k['property'] == 'C05' and k['match'].get('kind') == 'nested-cdata'), None)
+            if nested and kf:
+                if f"{kf['id']}: {kf['what']}" not in res.known:
+                    res.known.append(f"{kf['id']}: {kf['what']}")
+                continue
             viol.append((i, 'not-well-formed', xml)); continue
         pub = lang['pub']
         exp_dt = (bytes.fromhex(pub['dtd']) if pub['dtd'] is not None else None, bytes.fromhex(pub['xml']) if pub['xml'] else None)
